@@ -447,3 +447,42 @@ def ref_rule(path, cond, doc):
     res = ref_tree(cond, [v for v, _ in sel])
     fails = [sel[i] for i in range(len(sel)) if not res[i]]
     return (len(fails) == 0, True, fails)
+
+
+# ----------------------------------------------------------------- casts
+# Expected outcome of the two library casts on the concrete pool strings used by the checks
+# (an independent table, not a call of the functions under test).
+CAST_TABLE = {
+    "bool": {"true": True, "True": True, "TRUE": True, "false": False, "False": False, "fAlSe": False},
+    "int": {"3": 3, "-2": -2, " 7 ": 7, "0": 0, "+5": 5, "007": 7},
+}
+
+
+def ref_set(doc, cp, value):
+    node = doc
+    for k in cp[:-1]:
+        node = node[k]
+    node[cp[-1]] = value
+
+
+def ref_copy(x):
+    if isinstance(x, dict):
+        return {k: ref_copy(v) for k, v in x.items()}
+    if isinstance(x, list):
+        return [ref_copy(v) for v in x]
+    return x
+
+
+def ref_cast(rules, doc):
+    """rules: [(path_term, cast_kind or None)] in schema order. The document with every selected
+    node whose type has a declared cast replaced by the cast value when the cast succeeds."""
+    out = ref_copy(doc)
+    for path, kind in rules:
+        if kind is None:
+            continue
+        for v, cp in ref_walk(path, doc):
+            if isinstance(v, str) and len(cp) > 0:
+                table = CAST_TABLE[kind]
+                if v in table:
+                    ref_set(out, cp, table[v])
+    return out
